@@ -147,7 +147,7 @@ impl Check for C15 {
         "values of the 15 response types built in this configuration (and their player types) generated directly through their public fields from the models' random states (boundary numerics, string classes, empty lists, optional members; in half the cases the count fields are set independently of the lists); an accessor table written from the field documentation (DESIGN.md Appendix B.1) gives the expected name/description/game_mode/game_version/map/players_maximum/players_online/players_bots/has_password/players(name, score); accessors, as_json() field by field, its serde_json rendering re-parsed, players' as_json, and as_original() (same variant, equal to and pointing at the original) are compared. non-trivial = all comparisons done; distinct by value".into()
     }
     fn assumptions(&self) -> Vec<String> { vec!["theship::Response has a game_version field that the view does not expose: recorded observe-only".into(), "Minetest and Epic response types need the tls feature and are not built".into()] }
-    fn total_cases(&self, tier: Tier) -> u64 { tier.pick(150_000, 6_000_000) }
+    fn total_cases(&self, tier: Tier) -> u64 { tier.pick(600_000, 6_000_000) }
     fn run_case(&mut self, cx: &mut Cx) {
         let t = (cx.idx % 15) as usize;
         let rng = &mut cx.rng.clone();
